@@ -69,7 +69,7 @@ func applyStructuralFaults(r *rand.Rand, g *Graph) []string {
 		}
 		f := pick(r, g.Families)
 		p := pick(r, g.People)
-		kind := r.IntN(20)
+		kind := r.IntN(21)
 		switch kind {
 		case 0:
 			applied = append(applied, "missing-spouse-record")
@@ -185,6 +185,12 @@ func applyStructuralFaults(r *rand.Rand, g *Graph) []string {
 				"2 HUSB", "3 AGE 25y", "2 WIFE", "3 AGE 22y")
 			if r.IntN(3) == 0 {
 				f.Lines = append(f.Lines, "2 CHIL @"+p.Ptr+"@")
+			}
+		case 20:
+			// legal: nobody's sex is recorded as M or F
+			applied = append(applied, "nobody-with-known-sex")
+			for _, q := range g.People {
+				q.Sex = pick(r, []string{"", "U", "u", "X", "N"})
 			}
 		default:
 			applied = append(applied, "pointerless-records")
